@@ -123,8 +123,10 @@ def run_cases(cases, as_nobody=False, with_model=True):
         c = cases[k]
         root = c.f.get("root", "-")
         expr2 = c.expr.replace("@ROOT", unhx(root))
+        # a negation given as compiled values is the same negation to the model
+        mstack = ";".join(("n:" + l[3:]) if l.startswith("nc:") else l for l in c.stack.split(";"))
         reqs.append("W %s %s %s %s %s %s %s %s %s s" % (c.mode, c.f.get("base", "-"), hx(expr2) if c.mode == "g" else "-", c.link, c.mn, c.mx,
-                                                      c.stack, root, c.f.get("rec", "-")))
+                                                      mstack, root, c.f.get("rec", "-")))
     mans = m.ask(reqs, timeout=120)
     for k, a in zip(todo, mans):
         c = cases[k]
